@@ -328,6 +328,18 @@ func genC14(d *Draw) Case {
 	c := &ProcCase{Buf: d.N(17), Hold: d.N(3)}
 	ne := d.N(10)
 	var evd []string
+	if d.N(4) == 3 {
+		// concurrent stratum: every definition is matched exactly once, by events handed over from separate
+		// goroutines at the same moment once the catch event listens; whatever the order, it fires once
+		acts = 1
+		g.Flow(g.Node("LS").Out[0]).Cond.Lt = 1
+		for _, e := range cm.Events {
+			c.Events = append(c.Events, EvPlan{Kind: e.Kind, Ref: e.Ref, Own: true, Exact: true, WhenListening: 1})
+			evd = append(evd, e.Ref+"(concurrent)")
+		}
+		ne = 0
+		cm.Relaxed = false
+	}
 	for i := 0; i < ne; i++ {
 		e := pool[d.N(len(pool))]
 		c.Events = append(c.Events, EvPlan{Kind: e.Kind, Ref: e.Ref})
@@ -386,7 +398,13 @@ func checkC14(cc Case, r *simrt.Result) *Outcome {
 			pendingEv = pendingEv[len(pendingEv)-1:]
 		}
 	}
-	if cm.Parallel && len(cm.Events) > 1 && len(tg.Viol) == 0 {
+	concurrent := false
+	for _, ep := range c.Events {
+		if ep.Own {
+			concurrent = true
+		}
+	}
+	if cm.Parallel && len(cm.Events) > 1 && len(tg.Viol) == 0 && !concurrent {
 		min, max := matches[0], matches[0]
 		for _, n := range matches {
 			if n < min {
@@ -412,12 +430,13 @@ func checkC14(cc Case, r *simrt.Result) *Outcome {
 	probe(o, "parallel-multiple", cm.Parallel && len(cm.Events) > 1)
 	probe(o, "fired", fires > 0)
 	probe(o, "re-armed", fires > 1)
+	probe(o, "concurrent-deliveries", concurrent)
 	o.Sample = map[string]any{"program": c.Prog.Desc, "matches_per_definition": matches, "fires": fires}
 	return o
 }
 
 func init() {
-	Props["C14"] = &Scenario{Gen: genC14, Check: checkC14}
+	Props["C14"] = &Scenario{Gen: genC14, Check: checkC14, Once: enumerateSatisfiers}
 }
 
 // ---------- C06: event-based gateway: exactly one alternative wins and the instance completes ----------
